@@ -26,6 +26,7 @@ out = {
         ],
     },
     "detected_by": {p: {"exit": c["rc"], "seconds": c["s"], "signatures": c["signatures"]} for p, c in checks.items()},
+    "note": ev.get("note"),
     "sub_agent_ran": meta.get("ran"),
 }
 json.dump(out, open(os.path.join(dst, "meta.json"), "w"), indent=1)
